@@ -110,6 +110,11 @@ def gen_inside(rng, n, repeat=False):
 
 
 def gen_prices(rng, n, style="walk"):
+    if style == "micro":
+        # the same walk quoted in 1e-8 ticks (a token worth a few millionths): every ratio-type indicator
+        # (stochastic, RSI, Aroon, ADX, TSI, ROC) must read exactly as on the unscaled stream
+        return [(round(o * 1e-8, 10), round(h * 1e-8, 10), round(l * 1e-8, 10), round(c * 1e-8, 10), v)
+                for o, h, l, c, v in gen_prices(rng, n, "walk")]
     """list of (o,h,l,c,v); style mixes: walk | flat | up | down | zero_vol | decimal | mixed |
     inside | repeat | inside_then_walk"""
     if style in ("inside", "repeat"):
